@@ -6,7 +6,9 @@
    instantiation of the generic theorems with the library's reactions.
    Proofs: Proofs/ClaimProofsA.v (generic), ClaimProofsB.v (lib_R1..R5, exhausted search, transmitted source, D-04 witness), ClaimProofsC.v (address-changed
    indication), ClaimProofsD.v (commanded addresses that avoid siblings, Open()/Restart()), ClaimProofsE.v (instantiation);
-   ClaimProofsF.v (convergence, generic), ClaimProofsG.v (convergence, library); closing theorems: Props/Properties_C03.v. *)
+   ClaimProofsF.v (convergence, generic), ClaimProofsG.v (convergence, library), ClaimProofsH.v (a claim frame reaches HandleISOAddressClaim),
+   ClaimProofsI.v (nothing else writes an address), ClaimProofsJ.v (queues of claim frames, ParseMessages, one step of the model network);
+   closing theorems: Props/Properties_C03.v. *)
 From Coq Require Import ZArith List Bool.
 From N2kV Require Import Base.ListAux Model.CanId Model.Sched Model.PgnClass Model.NodeDefs Model.NodeRxDefs Model.NetDefs Gen.GenTables Gen.GenConsts Spec.SendSpec.
 Import ListNotations.
@@ -431,3 +433,101 @@ Definition claim_frame_dispatch_stmt : Prop :=
       let res := rx_loop gf (S fuel) r in
       rn (fst res) = rn (fst h) /\ snd res = snd h ++ [EvDeliver m] /\ ev_claims (snd res) = ev_claims (snd h) /\
       r_q (fst res) = [] /\ slots_free (fst res).
+
+(* ======================================================================================================================= *)
+(* Part 6: nothing else writes an address or opens a claim window                                                           *)
+(* ======================================================================================================================= *)
+(* What every function on the ParseMessages / application-send path may do to the address data of a device, apart from
+   HandleISOAddressClaim, HandleCommandedAddress and StartAddressClaim: nothing - except that IsAddressClaimStarted (called by SendMsg,
+   the heartbeat and the ISO-request handler) notices an enabled, expired claim timer, switches it off and recomputes
+   AddressClaimEndSource from the (unchanged) address.  N2kSource, the NAME, the address-changed indication, the clock, the open state
+   and the mode are untouched; no claim timer is armed. *)
+Definition dev_kept (w:bool) (now:Z) (d d':dev) : Prop :=
+  d_src d' = d_src d /\ d_name d' = d_name d /\
+  ((d_claim_end d' = d_claim_end d /\ d_claim_timer d' = d_claim_timer d) \/
+   (sched_is_enabled w (d_claim_timer d) = true /\ sched_is_time w now (d_claim_timer d) = true /\
+    d_claim_timer d' = sched_disabled w /\ d_claim_end d' = claim_end_of (d_src d))).
+Definition addr_kept (n n':node) : Prop :=
+  n_w64 n' = n_w64 n /\ n_now n' = n_now n /\ n_open n' = n_open n /\ n_mode n' = n_mode n /\ n_pgn n' = n_pgn n /\
+  n_addr_changed n' = n_addr_changed n /\ length (n_devs n') = length (n_devs n) /\
+  forall a:nat, dev_kept (n_w64 n) (n_now n) (nth a (n_devs n) ddev) (nth a (n_devs n') ddev).
+(* the contract for the reaction to a complete PGN 126208 message (group functions) *)
+Definition gf_keeps_addr (gf:rnode -> slot -> rnode * list event) : Prop := forall r s, addr_kept (rn r) (rn (fst (gf r s))).
+(* the ways the address data of a node change between two of its states: steps that keep them (above), HandleISOAddressClaim,
+   HandleCommandedAddress *)
+Inductive addr_path : rnode -> rnode -> Prop :=
+| ap_refl r : addr_path r r
+| ap_keep r r' r'' : addr_kept (rn r) (rn r') -> addr_path r' r'' -> addr_path r r''
+| ap_claim r x d r'' : addr_path (fst (handle_claim r x d)) r'' -> addr_path r r''
+| ap_cmd r s r'' : addr_path (fst (handle_commanded r s)) r'' -> addr_path r r''.
+(* 1. ParseMessages on an open node, whatever is pending (claims, ISO requests, ISO-TP sessions in both roles, fast packets, group
+      functions under the contract, anything else), whatever is due (queued frames, pending information, heartbeat): address data
+      only change inside HandleISOAddressClaim and HandleCommandedAddress.  The other operations of the node model on an open node -
+      application SendMsg, SendFrames, driver answers, frames arriving in the driver, heartbeat settings - keep them.  (The clock tick
+      changes the clock; StartAddressClaim(i) is one of the node's own claim actions; on a node that is not open ParseMessages /
+      SendMsg run Open(), i.e. StartAddressClaim() over all devices.) *)
+Definition d_src_frame_stmt : Prop :=
+  forall gf, gf_keeps_addr gf ->
+    (forall r, n_open (rn r) = 3 -> addr_path r (fst (poll gf r))) /\
+    (forall r o, n_open (rn r) = 3 ->
+       match o with
+       | RBase (OTick _) | RBase (OStartClaim _) | RPoll => True
+       | _ => addr_kept (rn r) (rn (fst (rstep gf r o)))
+       end).
+Definition gf_none_keeps_addr_stmt : Prop := gf_keeps_addr gf_none.
+
+(* ======================================================================================================================= *)
+(* Part 7: ParseMessages on a queue of claim frames                                                                         *)
+(* ======================================================================================================================= *)
+(* HandleISOAddressClaim run over a list of claims; in between the receive path only rewrites the receive queue and one slot, so each
+   call sees a node state whose [rn] is the previous result's (lib_good, lib_src, lib_name, c_react ... only look at [rn]).  The last
+   component collects the claims put on the bus. *)
+Inductive claim_run : node -> list claim -> node -> list claim -> Prop :=
+| cr_nil n : claim_run n [] n []
+| cr_cons n c cs r1 n' out : rn r1 = n -> claim_run (rn (fst (on_claim r1 (cx c) (cn c)))) cs n' out ->
+    claim_run n (c :: cs) n' (ev_claims (snd (on_claim r1 (cx c) (cn c))) ++ out).
+Definition rx_ready (r:rnode) : Prop :=
+  n_open (rn r) = 3 /\ is_active_node (rn r) = true /\ check_known (n_pgn (rn r)) 60928 = (true, true, false) /\ slots_free r.
+(* The free-slot premise (slots_free: here even "all slots free", which claim-only traffic re-establishes after every frame) is
+   essential: a claim frame that finds every reassembly slot busy with an unfinished multi-frame message younger than the time-out is
+   dropped before HandleISOAddressClaim sees it.  The property's premise - a bus that delivers every claim to every other node - is then
+   broken by overload of the receiver, the same situation as the capacity clause of C02. *)
+(* 1. the receive loop: every pending claim frame (at most as many as the loop reads) is handed to HandleISOAddressClaim, in order *)
+Definition rx_loop_claims_stmt : Prop :=
+  forall gf r cs fuel, rx_ready r -> Forall (fun c => 0 <= cx c < 256) cs -> r_q r = map claim_frame cs -> (length cs <= fuel)%nat ->
+    let res := rx_loop gf fuel r in
+    claim_run (rn r) cs (rn (fst res)) (ev_claims (snd res)) /\ r_q (fst res) = [] /\ rx_ready (fst res).
+(* 2. ParseMessages (open node, at most 20 pending claim frames): first whatever is queued / pending is sent (address data kept), then
+      the claims are handled as above, then the heartbeat (address data kept); the claims among the frames of the middle part are
+      exactly those of the HandleISOAddressClaim calls *)
+Definition poll_claims_stmt : Prop :=
+  forall gf r cs, rx_ready r -> Forall (fun c => 0 <= cx c < 256) cs -> r_q r = map claim_frame cs -> (length cs <= 20)%nat ->
+    exists na nb out evA evC evB,
+      addr_kept (rn r) na /\ claim_run na cs nb out /\ addr_kept nb (rn (fst (poll gf r))) /\
+      snd (poll gf r) = evA ++ evC ++ evB /\ ev_claims evC = out /\ r_q (fst (poll gf r)) = [] /\ slots_free (fst (poll gf r)).
+(* 3. (partial) one step of the model network (Model/NetDefs.v): a started library node processes a pending claim frame.  Its new
+      state is reached from the old one by address-keeping steps around ONE reaction c_react of the claim-level network
+      (Part 3) to that claim; the frames it puts on the bus are those of its ParseMessages call.  What is missing for a full simulation
+      of the claim-level network by the model network: the address-keeping steps have to be absorbed into the claim-level states
+      (c_react would have to be shown to respect addr_kept), claims re-announced by pending-information / ISO-request answers have to
+      become actions of the claim-level network, and commanded addresses (ISO-TP reassembly) have to be mapped to CCommand. *)
+Definition net_step_claim_partial_stmt : Prop :=
+  forall gf nt i k p r c,
+    get_part nt i = Some p -> p_on p = true -> p_kind p = PLib r -> nth_error (p_inbox p) (Z.to_nat k) = Some (claim_frame c) -> 0 <= k ->
+    rx_ready r -> r_q r = [] -> 0 <= cx c < 256 ->
+    exists p' r' r1 evA evC evB,
+      get_part (fst (net_step gf nt (NStep i k))) i = Some p' /\ p_kind p' = PLib r' /\ p_on p' = true /\
+      addr_kept (rn r) (rn r1) /\ n_open (rn r1) = 3 /\
+      addr_kept (rn (match fst (c_react (Z.to_nat i) (PLib r1) c) with PLib x => x | PRef _ => r1 end)) (rn r') /\
+      snd (net_step gf nt (NStep i k)) = map (NTx i) (frames_of (evA ++ evC ++ evB)) /\
+      ev_claims evC = snd (c_react (Z.to_nat i) (PLib r1) c).
+
+(* 4. (partial: nothing queued, no pending information) the arbitration rules R1 / R3 at the level of ParseMessages and frames: a
+      well-formed open node whose device k holds x finds the frame of claim(x, n) in its driver.  If n is below the device's NAME the
+      device has left x when ParseMessages returns; if n is above, the device still holds x and its own claim for x is among the frames
+      handed to the driver (accepted). *)
+Definition poll_arbitration_partial_stmt : Prop :=
+  forall gf r c k, lib_good r -> rx_ready r -> (forall i, 0 <= i < dev_count (rn r) -> has_pending r i = false) -> r_q r = [claim_frame c] ->
+    (k < lib_ndev r)%nat -> 0 <= cn c < 2^64 -> lib_src r k = cx c -> operational (cx c) ->
+    (cn c < lib_name r k -> lib_src (fst (poll gf r)) k <> cx c) /\
+    (lib_name r k < cn c -> lib_src (fst (poll gf r)) k = cx c /\ In (claim_event (cx c) (lib_name r k)) (snd (poll gf r))).
